@@ -408,3 +408,57 @@ Example C08_typed_kinds :
   map rkind (pre_f (filter_inplace typed_v typed_forest)) = [Some [120]; Some [121]; Some [122]; Some [122]; Some [120]]%Z /\
   (forall i, i_did (remake true i) = i_did i) /\ (forall i, remake false i = i).
 Proof. split; [vm_compute; reflexivity|]. split; [vm_compute; reflexivity|]. split; intros i; reflexivity. Qed.
+
+(* ====================================================================================== *)
+(* Glue C08 <-> C04/C07 (theories/Glue/GlueFilter.v).  The copying form above ([filtered], Node.
+   _add_filtered) against what the mutation machine (Mut/Machine.v) does for "Tree.copy(), then filter the
+   copy in place": [op_tree_copy] allocates the copy node by node (fresh identities in pre-order),
+   [op_filter] on the copy is [F] of it (C04_filter).  [Ren v v' a b]: b is a with other identities, and v'
+   answers for a node of b what v answers for the node of a it was copied from.  F commutes with such a
+   renumbering; hence copy-then-filter = F of the source modulo identity, and filtered() = that modulo
+   identity and [dbl] (the leaf copies of D24). *)
+From NT Require Machine WF EffectsMore GlueFilter.
+
+Theorem C08_F_commutes_with_renumbering : forall v v' f f',
+  Forall2 (GlueFilter.Ren v v') f f' -> Forall2 (GlueFilter.Ren v v') (F v f) (F v' f').
+Proof. exact GlueFilter.F_commutes_with_renumbering. Qed.
+Print Assumptions C08_F_commutes_with_renumbering.
+
+Theorem C08_filtered_is_copy_then_filter : forall w sti st vd r w2 (v : nat -> verdict) (mk : info -> info),
+  WF.WFw w -> Machine.get_tree w sti = Some st ->
+  (forall k, k < size_f (Machine.forest_of st) ->
+     EffectsMore.vof vd (Machine.next w + k) = v (nth k (ids (Machine.forest_of st)) 0)) ->
+  (forall x, In x (pre_f (Machine.forest_of st)) -> GlueFilter.cpi (Machine.typed st) None (rinfo x) = rinfo x) ->
+  let w1 := snd (Machine.op_tree_copy w sti) in
+  let tj := length (Machine.trees w) in
+  Machine.op_filter w1 tj 0 vd = (Machine.Ok r, w2) ->
+  exists t1 t2,
+    Machine.get_tree w1 tj = Some t1 /\ Forall2 (GlueFilter.Ren v (EffectsMore.vof vd)) (Machine.forest_of st) (Machine.forest_of t1) /\
+    Machine.get_tree w2 tj = Some t2 /\ Machine.forest_of t2 = F (EffectsMore.vof vd) (Machine.forest_of t1) /\
+    same_modulo_ids (Machine.forest_of t2) (F v (Machine.forest_of st)) /\
+    same_modulo_ids (filtered v mk (Machine.forest_of st)) (dbl (EffectsMore.vof vd) mk (Machine.forest_of t2)) /\
+    Machine.get_tree w2 sti = Some st.
+Proof. exact GlueFilter.copy_then_filter_is_filtered. Qed.
+Print Assumptions C08_filtered_is_copy_then_filter.
+
+(* non-vacuity: a(1) > b(2), c(3); copied to 4 > 5, 6; the predicate says False / True / SkipBranch *)
+Definition c08g_dd (z : Z) : Machine.dat := Machine.D z z z false [z].
+Definition c08g_w : Machine.world :=
+  Machine.run [Machine.ONewTree false None; Machine.OAdd 0 0 (c08g_dd 1) None None Machine.BNone;
+               Machine.OAdd 0 1 (c08g_dd 2) None None Machine.BNone; Machine.OAdd 0 0 (c08g_dd 3) None None Machine.BNone] Machine.empty_world.
+Definition c08g_vsrc : Machine.verdicts := [(1, Machine.VFalse); (2, Machine.VTrue); (3, Machine.VSkip)].
+Definition c08g_vcopy : Machine.verdicts := [(4, Machine.VFalse); (5, Machine.VTrue); (6, Machine.VSkip)].
+Example C08_filtered_is_copy_then_filter_nonvacuous :
+  exists st r w2,
+    WF.wf_world_b c08g_w = true /\ Machine.get_tree c08g_w 0 = Some st /\
+    (forall k, k < size_f (Machine.forest_of st) ->
+       EffectsMore.vof c08g_vcopy (Machine.next c08g_w + k) = EffectsMore.vof c08g_vsrc (nth k (ids (Machine.forest_of st)) 0)) /\
+    (forall x, In x (pre_f (Machine.forest_of st)) -> GlueFilter.cpi (Machine.typed st) None (rinfo x) = rinfo x) /\
+    Machine.op_filter (snd (Machine.op_tree_copy c08g_w 0)) 1 0 c08g_vcopy = (Machine.Ok r, w2) /\
+    map rid (pre_f (Machine.forest_of (nth 1 (Machine.trees w2) (Machine.TS [] [] [] false None)))) = [4; 5] /\
+    map rid (pre_f (F (EffectsMore.vof c08g_vsrc) (Machine.forest_of st))) = [1; 2].
+Proof.
+  eexists _, _, _. split; [vm_compute; reflexivity|]. split; [vm_compute; reflexivity|]. split; [|split; [|split; [vm_compute; reflexivity|split; vm_compute; reflexivity]]].
+  - intros k Hk. do 3 (destruct k as [|k]; [vm_compute; reflexivity|]). exfalso. vm_compute in Hk. do 3 apply le_S_n in Hk. inversion Hk.
+  - intros x Hx. vm_compute in Hx. destruct Hx as [<-|[<-|[<-|[]]]]; vm_compute; reflexivity.
+Qed.
